@@ -404,7 +404,8 @@ class Table:
         return len(next(iter(self._data.values()))) if self._data else 0
 
     def __eq__(self, o: object) -> bool:
-        return isinstance(o,Table) and o._data == self._data
+        #compare the rows that are held (the data of a filtered table is a View, which only compares by identity)
+        return isinstance(o,Table) and o._data.keys() == self._data.keys() and all(list(o._data[c]) == list(self._data[c]) for c in self._data.keys())
 
     def _ipython_display_(self):
         #pretty print in jupyter notebook (https://ipython.readthedocs.io/en/stable/config/integrating.html)
